@@ -143,15 +143,22 @@ Section Cookie.
   Definition wf_tuple (t : tuple) : Prop := let '(_, sv, cv) := t in sv < 65536 /\ cv < 65536.
   Definition wf_issue (i : issue) : Prop := wf_tuple (fst i) /\ snd i < two32.
 
+  (* the one message Validate MACs when it is shown cookie c by tuple t *)
+  Definition macd (t : tuple) (c : bytes) : bytes := let '(mac, sv, cv) := t in enc_val mac sv cv (skipn 32 c).
+
   Lemma cookie_sound ttl now c t issued :
-    (forall d, firstn 32 c = H d -> In d (map enc_issue issued)) ->      (* H_mac_unforgeable *)
+    (* H_mac_unforgeable, for the single (message, tag) pair presented: if the tag carried by the cookie IS the
+       MAC of the message Validate recomputes, that message is one Generate has MACed.  Nothing is assumed
+       about other preimages of the tag. *)
+    (firstn 32 c = H (macd t c) -> In (macd t c) (map enc_issue issued)) ->
     Forall wf_issue issued -> wf_tuple t ->
     validate H ttl now c t = true ->
     exists ts, In (t, ts) issued /\ (now - Z.of_N ts * ns_per_s <= ttl)%Z /\ skipn 32 c = put32 ts.
   Proof.
     intros Hunf Hwf Hwt Hv. destruct t as [[mac sv] cv].
     destruct (validate_true_inv _ _ _ _ _ _ Hv) as (a & b & c4 & d & Hs & Hfresh & Hsig).
-    apply Hunf in Hsig. apply in_map_iff in Hsig as ([[[mac' sv'] cv'] ts'] & He & Hin).
+    unfold macd in Hunf. rewrite Hs in Hunf. specialize (Hunf Hsig). rename Hunf into Hsig'. clear Hsig. rename Hsig' into Hsig.
+    apply in_map_iff in Hsig as ([[[mac' sv'] cv'] ts'] & He & Hin).
     rewrite Coq.Lists.List.Forall_forall in Hwf. destruct (Hwf _ Hin) as [[Hsv' Hcv'] Hts']. simpl in Hsv', Hcv', Hts'.
     destruct Hwt as [Hsv Hcv].
     simpl in He. unfold enc_gen, enc_val in He.
@@ -468,7 +475,7 @@ Proof.
 Qed.
 
 (* the variants for which the invariant is inductive over every interleaving *)
-Definition reserving (v : variant) : Prop := v_sid_guard v = true /\ v_reserve v = true.
+Definition reserving (v : variant) : Prop := v_sid_guard v = true /\ v_reserve v = true /\ v_ha_check v = true.
 
 Lemma padr_begin_Inv v e s t p s1 ox : reserving v -> Inv s -> padr_begin v e s t p = Some (s1, ox) ->
   Inv s1 /\ pend s1 = pend s /\
@@ -479,7 +486,7 @@ Lemma padr_begin_Inv v e s t p s1 ox : reserving v -> Inv s -> padr_begin v e s 
               (forall y, In y (pend s1) -> s_sid y <> s_sid x /\ s_uid y <> s_uid x)
   end.
 Proof.
-  intros [Hg Hr] HI Hb. apply padr_begin_cases in Hb as [Hx|(tg & sid & n' & _ & _ & _ & Ha & Hc)].
+  intros (Hg & Hr & _) HI Hb. apply padr_begin_cases in Hb as [Hx|(tg & sid & n' & _ & _ & _ & Ha & Hc)].
   - inversion Hx; subst. auto.
   - apply allocate_sound in Ha; [|apply norm_next_range; [exact Hg | apply HI]]. destruct Ha as [Hn' Hsid].
     destruct Hc as [[_ Hx]|[Hz Hx]]; inversion Hx; subst.
@@ -494,7 +501,7 @@ Qed.
 
 Lemma step_Inv v e s o s' r : reserving v -> Inv s -> step v e s o = Some (s', r) -> Inv s'.
 Proof.
-  intros Hv HI Hs. destruct o as [t|t p|t p|u|t sid|t sid|t sid a|sid|sid t a|n]; simpl in Hs.
+  intros Hv HI Hs. destruct o as [t|t p|t p|u|t sid|t sid|t sid a|sid|sid t a|sid t a|n]; simpl in Hs.
   - destruct (e_grp e t); inversion Hs; subst; exact HI.
   - destruct (padr_begin v e s t p) as [[s1 [x|]]|] eqn:Eb; inversion Hs; subst;
       destruct (padr_begin_Inv _ _ _ _ _ _ _ Hv HI Eb) as (HI1 & Hp & Hx); [|exact HI1].
@@ -541,6 +548,20 @@ Proof.
       - apply Inv_bump; exact HI0.
       - destruct (by_uidx s !! ctr s) as [y|] eqn:E; [|reflexivity]. destruct (inv_uidx _ HI _ _ E). lia.
       - intros y Hy. split; [eapply pend_has_false; eauto|]. destruct (inv_pend _ HI y Hy) as (_ & _ & F3 & _). lia. }
+    destruct Hadd as [A B C D E0 F G0 H0]. split; simpl in *; auto.
+  - destruct Hv as (_ & Hrv & Hh). rewrite Hh in Hs. cbn [andb] in Hs.
+    destruct (N.ltb_spec sid 65536) as [Hlt|]; simpl in Hs; [|discriminate].
+    destruct (N.eqb_spec sid 0) as [|Hnz]; simpl in Hs; [inversion Hs; subst; exact HI|].
+    destruct (id_used v s sid) eqn:Eu; [inversion Hs; subst; exact HI|]. inversion Hs; subst.
+    apply id_used_false in Eu as [El Ep].
+    apply Inv_set_next; [|destruct (N.leb (next s) sid); [apply u16_lt | apply HI]].
+    assert (HI0 : Inv (set_attr_of s (ctr s) a)) by (apply Inv_set_attr_of; exact HI).
+    assert (Hadd : Inv (add_indexes (get_attr (set_attr_of s (ctr s) a) (ctr s))
+                          {| s_uid := ctr s; s_sid := sid; s_tup := t |} (bump_ctr (set_attr_of s (ctr s) a)))).
+    { apply Inv_add; simpl; auto; try lia.
+      - apply Inv_bump; exact HI0.
+      - destruct (by_uidx s !! ctr s) as [y|] eqn:E; [|reflexivity]. destruct (inv_uidx _ HI _ _ E). lia.
+      - intros y Hy. split; [apply (Ep Hrv); exact Hy|]. destruct (inv_pend _ HI y Hy) as (_ & _ & F3 & _). lia. }
     destruct Hadd as [A B C D E0 F G0 H0]. split; simpl in *; auto.
   - destruct (N.ltb_spec n 65536); inversion Hs; subst. apply Inv_set_next; auto.
 Qed.
@@ -628,7 +649,7 @@ Proof.
      (forall u, r = OTerm u \/ r = OReach u -> exists x, live s x /\ s_uid x = u /\ s_tup x = t)).
   { intros s1 E1 E2 E3 Hr ->. rewrite E1, E2, E3. repeat split; auto.
     intros u Hu. exfalso. destruct Hu as [Hu|Hu]; destruct (Hr u); congruence. }
-  destruct o as [t0|t0 p|t0 p|u|t0 sid|t0 sid|t0 sid a|sid|sid t0 a|n]; simpl in Hsnd; inversion Hsnd; subst t0;
+  destruct o as [t0|t0 p|t0 p|u|t0 sid|t0 sid|t0 sid a|sid|sid t0 a|sid t0 a|n]; simpl in Hsnd; inversion Hsnd; subst t0;
     simpl in Hs.
   - destruct (e_grp e t); inversion Hs; subst; eapply Hsame; eauto; intros u; split; discriminate.
   - destruct (padr_begin v e s t p) as [[s1 [x|]]|] eqn:Eb; inversion Hs; subst.
@@ -692,7 +713,7 @@ Proof.
      (attr_of s' = attr_of s \/
       exists sid x a, by_sid s !! sid = Some x /\ s_tup x = t /\ attr_of s' = <[ s_uid x := a ]> (attr_of s))).
   { intros s1 E1 E2 E3 ->. rewrite E1, E2, E3. auto. }
-  destruct o as [t0|t0 p|t0 p|u|t0 sid|t0 sid|t0 sid a|sid|sid t0 a|n]; simpl in Hsnd; inversion Hsnd; subst t0;
+  destruct o as [t0|t0 p|t0 p|u|t0 sid|t0 sid|t0 sid a|sid|sid t0 a|sid t0 a|n]; simpl in Hsnd; inversion Hsnd; subst t0;
     simpl in Hs.
   - destruct (e_grp e t); inversion Hs; subst; eapply Hsame; eauto.
   - destruct (padr_begin v e s t p) as [[s1 [x|]]|] eqn:Eb; inversion Hs; subst.
@@ -816,7 +837,7 @@ Qed.
 Lemma step_new_alive v e s o s' r x : step v e s o = Some (s', r) -> alive s' x ->
   alive s x \/ (exists p, (o = PADR (s_tup x) p /\ r = OPads (s_sid x) (s_uid x)) \/
                           (o = PBEGIN (s_tup x) p /\ r = OPend (s_sid x) (s_uid x))) \/
-  (exists a, o = RESTORE (s_sid x) (s_tup x) a).
+  (exists a, o = RESTORE (s_sid x) (s_tup x) a \/ o = HASYNC (s_sid x) (s_tup x) a).
 Proof.
   assert (Hadd : forall a y s0, live (add_indexes a y s0) x -> live s0 x \/ x = y).
   { intros a y s0 [[k Hk]|[t Ht]]; simpl in *.
@@ -830,7 +851,7 @@ Proof.
   { intros y s0 [[k Hk]|[t Ht]]; simpl in *.
     - apply del_ifN_sub in Hk. left; eauto.
     - apply del_if_sub in Ht. right; eauto. }
-  intros Hs Hl. destruct o as [t|t p|t p|u|t sid|t sid|t sid a|sid|sid t a|n]; simpl in Hs.
+  intros Hs Hl. destruct o as [t|t p|t p|u|t sid|t sid|t sid a|sid|sid t a|sid t a|n]; simpl in Hs.
   - destruct (e_grp e t); inversion Hs; subst; auto.
   - destruct (padr_begin v e s t p) as [[s1 ox]|] eqn:Eb; [|discriminate].
     destruct (padr_begin_frame _ _ _ _ _ _ _ Eb) as (E1 & E2 & E3 & E4 & E5 & E6 & E7).
@@ -868,6 +889,13 @@ Proof.
                     {| s_uid := ctr s; s_sid := sid; s_tup := t |} (set_attr_of s (ctr s) a)) x)
       by (destruct Hl as [[k Hk]|[t' Ht]]; [left | right]; eauto).
     apply Hadd in Hl' as [Hl'| ->]; [left; left; exact Hl' | right; right; eauto].
+  - destruct (negb (N.ltb sid 65536)); [discriminate|].
+    destruct (v_ha_check v && _); [inversion Hs; subst; left; exact Hl|]. inversion Hs; subst.
+    destruct Hl as [Hl|Hl]; [|left; right; exact Hl].
+    assert (Hl' : live (add_indexes (get_attr (set_attr_of s (ctr s) a) (ctr s))
+                    {| s_uid := ctr s; s_sid := sid; s_tup := t |} (set_attr_of s (ctr s) a)) x)
+      by (destruct Hl as [[k Hk]|[t' Ht]]; [left | right]; eauto).
+    apply Hadd in Hl' as [Hl'| ->]; [left; left; exact Hl' | right; right; eauto].
   - destruct (N.ltb n 65536); inversion Hs; subst. left. exact Hl.
 Qed.
 
@@ -878,7 +906,7 @@ Lemma padr_creates_when_room v e s t p tg : reserving v -> Inv s -> parse_tags p
   exists s' sid, step v e s (PADR t p) = Some (s', OPads sid (ctr s)) /\ 0 < sid < 65536 /\
     id_used v s sid = false /\ by_sid s' !! sid = Some {| s_uid := ctr s; s_sid := sid; s_tup := t |}.
 Proof.
-  intros [Hg Hr] HI Hp Hv Hgr (j & Hj & Hfree). simpl. unfold padr_begin. rewrite Hp, Hv, Hgr. simpl.
+  intros (Hg & Hr & _) HI Hp Hv Hgr (j & Hj & Hfree). simpl. unfold padr_begin. rewrite Hp, Hv, Hgr. simpl.
   destruct (allocate_complete v s) as (sid & n' & Ha & Hc); [apply norm_next_range; [exact Hg | apply HI]|].
   rewrite Ha. pose proof Ha as Hsound. apply allocate_sound in Hsound; [|apply norm_next_range; [exact Hg | apply HI]].
   destruct Hc as [[Hne Hf]|[-> Hall]]; [|rewrite (Hall j Hj) in Hfree; discriminate].
@@ -891,7 +919,7 @@ Lemma padr_full_repaired v e s t p s' r : reserving v -> Inv s -> (forall j, 0 <
   step v e s (PADR t p) = Some (s', r) ->
   r = ONone /\ by_sid s' = by_sid s /\ by_tup s' = by_tup s /\ pend s' = pend s.
 Proof.
-  intros [Hg Hr] HI Hall. simpl. destruct (padr_begin v e s t p) as [[s1 ox]|] eqn:Eb; [|discriminate].
+  intros (Hg & Hr & _) HI Hall. simpl. destruct (padr_begin v e s t p) as [[s1 ox]|] eqn:Eb; [|discriminate].
   destruct (padr_begin_frame _ _ _ _ _ _ _ Eb) as (E1 & E2 & _ & _ & _ & E6 & _).
   apply padr_begin_cases in Eb as [Hx|(tg & sid & n' & _ & _ & _ & Ha & Hc)].
   - inversion Hx; subst. intros Hs; inversion Hs; auto.
@@ -984,14 +1012,15 @@ Proof.
     generalize alloc_fuel (norm_next ReserveOnly (next s)). intros f n0. generalize n0 at 2 4.
     induction f as [|f IH]; intros nxt; [reflexivity|]. rewrite !alloc_loop_unfold, Hu.
     destruct (negb _); [reflexivity|]. destruct (N.eqb _ _); [reflexivity | apply IH]. }
-  destruct o as [t|t p|t p|u|t sid|t sid|t sid a|sid|sid t a|n]; try contradiction.
+  destruct o as [t|t p|t p|u|t sid|t sid|t sid a|sid|sid t a|sid t a|n]; try contradiction.
   2: { cbn [step]. unfold padr_begin. rewrite Ha. reflexivity. }
+  7: { cbn [step]. rewrite Hu. reflexivity. }
   all: reflexivity.
 Qed.
 
 Lemma step_pend_nil v e s o s' r : pend s = [] -> no_overlap o -> step v e s o = Some (s', r) -> pend s' = [].
 Proof.
-  intros Hp Ho Hs. destruct o as [t|t p|t p|u|t sid|t sid|t sid a|sid|sid t a|n]; try contradiction; simpl in Hs.
+  intros Hp Ho Hs. destruct o as [t|t p|t p|u|t sid|t sid|t sid a|sid|sid t a|sid t a|n]; try contradiction; simpl in Hs.
   - destruct (e_grp e t); inversion Hs; subst; auto.
   - destruct (padr_begin v e s t p) as [[s1 ox]|] eqn:Eb; [|discriminate].
     destruct (padr_begin_frame _ _ _ _ _ _ _ Eb) as (_ & _ & _ & _ & _ & E6 & _).
@@ -1004,6 +1033,8 @@ Proof.
     destruct (owner_ok v x t); inversion Hs; subst; auto.
   - destruct (by_sid s !! sid) as [x|]; inversion Hs; subst; auto.
   - destruct (_ || _); [discriminate|]. inversion Hs; subst; auto.
+  - destruct (negb (N.ltb sid 65536)); [discriminate|].
+    destruct (v_ha_check v && _); inversion Hs; subst; auto.
   - destruct (N.ltb n 65536); inversion Hs; subst; auto.
 Qed.
 
@@ -1014,8 +1045,8 @@ Proof.
   rewrite IH; auto. eapply step_pend_nil; eauto.
 Qed.
 
-Lemma reserving_HeadReserve : reserving ReserveOnly. Proof. split; reflexivity. Qed.
-Lemma reserving_Repaired : reserving Repaired. Proof. split; reflexivity. Qed.
+Lemma reserving_HeadReserve : reserving ReserveOnly. Proof. repeat split; reflexivity. Qed.
+Lemma reserving_Repaired : reserving Repaired. Proof. repeat split; reflexivity. Qed.
 Lemma owning_Repaired : owning Repaired. Proof. split; [reflexivity | apply reserving_Repaired]. Qed.
 Lemma owning_HeadReserve : owning ReserveOnly. Proof. split; [reflexivity | apply reserving_HeadReserve]. Qed.
 
@@ -1144,9 +1175,9 @@ Proof. vm_compute. reflexivity. Qed.
 (* a PADS is sent / a session created only for a cookie this BNG issued for the same tuple
    within its lifetime (under the unforgeability premise on the HMAC) *)
 Lemma admission v e s t p s' sid uid issued :
-  (* H_mac_unforgeable, for the one tag this PADR presents: if the first 32 bytes of its AC-Cookie are
-     H of some message, that message is one Generate has MACed *)
-  (forall tg d, parse_tags p = Ok tg -> firstn 32 (t_cookie tg) = e_H e d -> In d (map enc_issue issued)) ->
+  (* H_mac_unforgeable for the one (message, tag) pair this PADR presents *)
+  (forall tg, parse_tags p = Ok tg -> firstn 32 (t_cookie tg) = e_H e (macd t (t_cookie tg)) ->
+              In (macd t (t_cookie tg)) (map enc_issue issued)) ->
   Forall wf_issue issued -> wf_tuple t ->
   step v e s (PADR t p) = Some (s', OPads sid uid) ->
   exists ts, In (t, ts) issued /\ (e_now_ns e - Z.of_N ts * ns_per_s <= e_ttl e)%Z.
@@ -1161,19 +1192,31 @@ Definition oneH (d : bytes) : bytes :=
 
 Lemma cookie_sound_nonvacuous :
   let c := generate oneH 1000 tA in
-  (forall d, firstn 32 c = oneH d -> In d (map enc_issue [(tA, 1000)])) /\
+  (firstn 32 c = oneH (macd tA c) -> In (macd tA c) (map enc_issue [(tA, 1000)])) /\
   Forall wf_issue [(tA, 1000)] /\ wf_tuple tA /\
   validate oneH 60000000000 1000500000000 c tA = true /\
   validate oneH 60000000000 1061500000000 c tA = false /\
   validate oneH 60000000000 1000500000000 c tB = false.
 Proof.
   split.
-  - intros d Hd. change (firstn 32 (generate oneH 1000 tA)) with (repeat 1 32) in Hd.
-    unfold oneH in Hd. destruct (bytes_eqb d _) eqn:E.
-    + apply bytes_eqb_eq in E. left. symmetry. exact E.
-    + discriminate Hd.
+  - intros _. left. vm_compute. reflexivity.
   - split; [repeat constructor; simpl; unfold two32; lia|].
     split; [simpl; lia|]. repeat split; vm_compute; reflexivity.
+Qed.
+
+(* the premise is satisfiable for a NON-injective H as well (toyH maps every extension by zero bytes of a short
+   message to the same tag, so the tag below has many preimages): only the presented message matters *)
+Lemma cookie_sound_nonvacuous_noninjective :
+  let c := generate toyH 1000 tA in
+  (firstn 32 c = toyH (macd tA c) -> In (macd tA c) (map enc_issue [(tA, 1000)])) /\
+  Forall wf_issue [(tA, 1000)] /\ wf_tuple tA /\
+  validate toyH 60000000000 1000500000000 c tA = true /\
+  toyH (macd tA c ++ [0]) = toyH (macd tA c) /\ ~ In (macd tA c ++ [0]) (map enc_issue [(tA, 1000)]).
+Proof.
+  split; [intros _; left; vm_compute; reflexivity|].
+  split; [repeat constructor; simpl; unfold two32; lia|]. split; [simpl; lia|].
+  split; [vm_compute; reflexivity|]. split; [vm_compute; reflexivity|].
+  intros [Hx|[]]. vm_compute in Hx. discriminate Hx.
 Qed.
 
 Example history_nonvacuous :
@@ -1248,30 +1291,28 @@ Definition envOne : env :=
 Definition padrOne : bytes := add_tag TagACCookie (generate oneH 1000 tA).
 
 Lemma admission_nonvacuous :
-  (forall tg d, parse_tags padrOne = Ok tg -> firstn 32 (t_cookie tg) = oneH d -> In d (map enc_issue [(tA, 1000)])) /\
+  (forall tg, parse_tags padrOne = Ok tg -> firstn 32 (t_cookie tg) = oneH (macd tA (t_cookie tg)) ->
+              In (macd tA (t_cookie tg)) (map enc_issue [(tA, 1000)])) /\
   Forall wf_issue [(tA, 1000)] /\ wf_tuple tA /\
   (exists s', step Repaired envOne st0 (PADR tA padrOne) = Some (s', OPads 1 0)) /\
-  (* the premise is not "everything is issued": other messages have a different tag *)
+  (* other messages have a different tag *)
   oneH (enc_issue (tB, 1000)) <> firstn 32 (generate oneH 1000 tA) /\
   (* and the same PADR from another tuple is refused *)
   (exists s', step Repaired envOne st0 (PADR tB padrOne) = Some (s', ONone)).
 Proof.
   split.
-  - intros tg d Hp Hd.
+  - intros tg Hp _.
     assert (Ht : parse_tags padrOne = Ok {| t_cookie := generate oneH 1000 tA; t_hostuniq := []; t_maxpayload := 0; t_nraw := 1 |})
       by (vm_compute; reflexivity).
-    rewrite Ht in Hp. inversion Hp; subst tg. simpl t_cookie in Hd.
-    change (firstn 32 (generate oneH 1000 tA)) with (repeat 1 32) in Hd.
-    unfold oneH in Hd. destruct (bytes_eqb d _) eqn:E.
-    + apply bytes_eqb_eq in E. left. symmetry. exact E.
-    + discriminate Hd.
+    rewrite Ht in Hp. inversion Hp; subst tg. left. vm_compute. reflexivity.
   - split; [repeat constructor; simpl; unfold two32; lia|]. split; [simpl; lia|].
     split; [eexists; vm_compute; reflexivity|]. split; [vm_compute; discriminate|].
     eexists; vm_compute; reflexivity.
 Qed.
 
 Lemma admission_pend v e s t p s' sid uid issued :
-  (forall tg d, parse_tags p = Ok tg -> firstn 32 (t_cookie tg) = e_H e d -> In d (map enc_issue issued)) ->
+  (forall tg, parse_tags p = Ok tg -> firstn 32 (t_cookie tg) = e_H e (macd t (t_cookie tg)) ->
+              In (macd t (t_cookie tg)) (map enc_issue issued)) ->
   Forall wf_issue issued -> wf_tuple t ->
   step v e s (PBEGIN t p) = Some (s', OPend sid uid) ->
   exists ts, In (t, ts) issued /\ (e_now_ns e - Z.of_N ts * ns_per_s <= e_ttl e)%Z.
@@ -1371,3 +1412,47 @@ Qed.
 Example key_without_separator_collides :
   dec 12 ++ dec 3 = dec 1 ++ dec 23 /\ session_key (fst (fst tA), 12, 3) <> session_key (fst (fst tA), 1, 23).
 Proof. split; [reflexivity | vm_compute; discriminate]. Qed.
+
+(* ------------------------------------------------------------------ run-time HA restore *)
+(* with the check: a synced checkpoint whose id is 0, indexed or reserved changes nothing *)
+Lemma hasync_refused v e s sid t a s' r : v_ha_check v = true -> sid < 65536 ->
+  sid = 0 \/ id_used v s sid = true -> step v e s (HASYNC sid t a) = Some (s', r) -> s' = s /\ r = ONone.
+Proof.
+  intros Hh Hlt Hc. cbn [step]. rewrite Hh. destruct (N.ltb_spec sid 65536); [|lia]. cbn [negb andb].
+  assert (Hb : N.eqb sid 0 || id_used v s sid = true).
+  { destruct Hc as [->|Hu]; [reflexivity | rewrite Hu; apply orb_true_r]. }
+  rewrite Hb. intros Hs; inversion Hs; auto.
+Qed.
+
+(* ... and a usable id is installed like a start-up restore, keeping every other session's entries *)
+Lemma hasync_accepted v e s sid t a : v_ha_check v = true -> 0 < sid < 65536 -> id_used v s sid = false ->
+  exists s', step v e s (HASYNC sid t a) = Some (s', OSynced (ctr s)) /\
+    by_sid s' !! sid = Some {| s_uid := ctr s; s_sid := sid; s_tup := t |} /\
+    (forall k, k <> sid -> by_sid s' !! k = by_sid s !! k).
+Proof.
+  intros Hh Hr Hu. cbn [step]. rewrite Hh, Hu. destruct (N.ltb_spec sid 65536); [|lia].
+  destruct (N.eqb_spec sid 0); [lia|]. cbn [negb andb orb].
+  eexists. split; [reflexivity|]. simpl. split; [apply lookup_insert|].
+  intros k Hk. apply lookup_insert_ne. congruence.
+Qed.
+
+(* /repo HEAD before the HA patch: the peer's id 1 is installed over the live local session with id 1; the local
+   session stays in c.sessions but can no longer be reached, echoed or terminated by its id, and two sessions
+   alive in the table carry id 1.  Replayed on the real code (harness op H, restoreFromHASync). *)
+Lemma hasync_refuted : exists e ops s outs xA xB,
+  run NoHACheck e st0 ops = Some (s, outs) /\
+  by_tup s !! tA = Some xA /\ by_tup s !! tB = Some xB /\ xA <> xB /\ s_sid xA = 1 /\ s_sid xB = 1 /\
+  by_sid s !! 1 = Some xB /\ outs = [OPads 1 0; OSynced 1; ONone].
+Proof.
+  exists env0, [padr_of tA; HASYNC 1 tB []; SESS tA 1]. do 4 eexists.
+  split; [vm_compute; reflexivity|]. split; [vm_compute; reflexivity|]. split; [vm_compute; reflexivity|].
+  split; [discriminate|]. repeat split; vm_compute; reflexivity.
+Qed.
+
+Example hasync_repaired :
+  match run Repaired env0 st0 [padr_of tA; HASYNC 1 tB []; HASYNC 0 tB []; HASYNC 7 tB []; SESS tA 1] with
+  | Some (s, outs) => outs = [OPads 1 0; ONone; ONone; OSynced 1; OReach 0] /\
+      (exists x, by_sid s !! 7 = Some x /\ s_tup x = tB)
+  | None => False
+  end.
+Proof. vm_compute. split; [reflexivity | eexists; split; reflexivity]. Qed.
